@@ -35,7 +35,7 @@ def base_element(g, eid, SR, chans, N):
         counts[-1] += N - sum(counts)
         bops = [{"op": "bp.new", "id": bid}]
         for n in counts:
-            fk = r.choice(["ramp", "ramp", "sine", "const", "lin2"])
+            fk = r.choice(["ramp", "ramp", "sine", "const", "lin2", "lin2~"])     # lin2~: another function that is also called lin2
             if fk == "ramp":
                 fn, args = "ramp", [g.fnum(), g.fnum()]
             elif fk == "sine":
@@ -121,10 +121,14 @@ def case(g, tier, ci):
     P = r.randint(1, 3)
     ops = [{"op": "sq.new", "id": "t"}, {"op": "sq.setSR", "id": "t", "v": enc(SR)}]
     tables = {}
-    for p in range(1, P + 1):
+    order = list(range(1, P + 1))
+    if r.random() < 0.4:
+        r.shuffle(order)          # positions filled out of ascending order
+    for p in order:
         eo, tb = base_element(g, f"e{p}", SR, chans, N)
         ops += eo + [{"op": "sq.addElement", "id": "t", "pos": p, "el": f"e{p}"}]
         tables[p] = tb
+    for p in range(1, P + 1):
         for fld in ("goto", "jump_target", "nrep"):
             if r.random() < 0.5:
                 ops.append({"op": "sq.setSeq", "id": "t", "pos": p, "field": fld,
